@@ -2,6 +2,7 @@ package main
 
 import (
 	"fmt"
+	"os"
 	"go/ast"
 	"go/token"
 	"go/types"
@@ -1085,9 +1086,156 @@ func ruleCacheInit(c *Ctx) {
 			case derivedFields[key] != "":
 				c.OK("init."+key, c.P.Pos(init.Decl.Pos()), "derived/constant: "+derivedFields[key])
 			default:
-				c.Fail("init."+key, c.P.Pos(init.Decl.Pos()), fmt.Sprintf("%s.InitializeCache never fills %s: after a restart the cache starts with the zero value while a running node has the value its setters stored — answers and state roots diverge", FuncKey(init.Obj), key))
+				c.Fail("init."+key, c.P.Pos(init.Decl.Pos()), fmt.Sprintf("%s never fills %s: after a restart the cache starts with the zero value while a running node has the value its setters stored — answers and state roots diverge", FuncKey(init.Obj), key))
 			}
 		}
 	}
 	c.Floor("native cache fields", nfields, 24)
+}
+
+// ---------------------------------------------------------------------------
+// cache-pairing: a cached storage record and its cache field change together
+
+type keyField struct {
+	key   string // symbol of the storage key (package-level var/const of package native)
+	field string // cache field symbol
+	owner string // cache type
+}
+
+// derivePairs reads "cache.F = get...(…KEY…)" statements out of the cache builders (InitializeCache closure).
+func derivePairs(c *Ctx, cts map[string]*types.Named) []keyField {
+	pk := c.P.Pkg(natPkg)
+	ws := c.P.PkgWriteSummary(natPkg)
+	var out []keyField
+	seenPair := map[string]bool{}
+	var builders []*FuncDecl
+	seen := map[*types.Func]bool{}
+	var visit func(f *types.Func)
+	visit = func(f *types.Func) {
+		if seen[f] {
+			return
+		}
+		seen[f] = true
+		if d := c.P.DeclOf(f); d != nil && d.Decl.Body != nil {
+			builders = append(builders, d)
+		}
+		for _, callee := range ws.Calls[f] {
+			visit(callee)
+		}
+	}
+	for _, fd := range c.P.AllFuncDecls() {
+		if fd.Pkg == pk && fd.Decl.Name.Name == "InitializeCache" {
+			visit(fd.Obj)
+		}
+	}
+	isKeySym := func(s string) bool {
+		if !strings.HasPrefix(s, natPkg+".") {
+			return false
+		}
+		n := strings.TrimPrefix(s, natPkg+".")
+		switch pk.Types.Scope().Lookup(n).(type) {
+		case *types.Var, *types.Const:
+		default:
+			return false
+		}
+		return strings.HasSuffix(n, "Key") || strings.HasPrefix(n, "prefix") || strings.HasPrefix(n, "key") || strings.HasSuffix(n, "Prefix")
+	}
+	for _, d := range builders {
+		f := c.P.NewFuncCFG(d)
+		ast.Inspect(d.Decl.Body, func(n ast.Node) bool {
+			as, ok := n.(*ast.AssignStmt)
+			if !ok || len(as.Lhs) != 1 || len(as.Rhs) != 1 {
+				return true
+			}
+			se, ok := ast.Unparen(as.Lhs[0]).(*ast.SelectorExpr)
+			if !ok {
+				return true
+			}
+			v, ok := pk.TypesInfo.ObjectOf(se.Sel).(*types.Var)
+			if !ok || !v.IsField() {
+				return true
+			}
+			bt := pk.TypesInfo.TypeOf(se.X)
+			if p, ok := bt.(*types.Pointer); ok {
+				bt = p.Elem()
+			}
+			nt, ok := bt.(*types.Named)
+			if !ok || cts[nt.Obj().Name()] != nt {
+				return true
+			}
+			var keys []string
+			for s := range f.Mentions(as.Rhs[0], nil) {
+				if isKeySym(s) {
+					keys = append(keys, s)
+				}
+			}
+			if os.Getenv("NV_DEBUG") != "" {
+				fmt.Println("DBG pair cand", FuncKey(d.Obj), types.ExprString(as.Lhs[0]), keys)
+			}
+			if len(keys) == 1 && !seenPair[keys[0]+symOf(v)] {
+				seenPair[keys[0]+symOf(v)] = true
+				out = append(out, keyField{keys[0], symOf(v), nt.Obj().Name()})
+			}
+			return true
+		})
+	}
+	sort.Slice(out, func(i, j int) bool { return out[i].key < out[j].key })
+	return out
+}
+
+func ruleCachePairing(c *Ctx) {
+	pk := c.P.Pkg(natPkg)
+	if pk == nil {
+		c.Lost("anchor", "package native not found")
+		return
+	}
+	cts := cacheTypes(c)
+	pairs := derivePairs(c, cts)
+	c.Floor("(storage key, cache field) pairs derived from the cache builders", len(pairs), 8)
+	ws := c.P.PkgWriteSummary(natPkg)
+	g := c.P.MRG()
+	exec := g.Reach(c.P.HandlerRoots(), nil)
+	var ps []string
+	for _, p := range pairs {
+		ps = append(ps, shortSym(p.key)+"<->"+p.owner+"."+shortSym(p.field))
+	}
+	c.Note("pairs: %s", strings.Join(ps, ", "))
+	for _, p := range pairs {
+		// storage writers of the key
+		for _, fd := range c.P.AllFuncDecls() {
+			if fd.Pkg != pk || fd.Decl.Body == nil {
+				continue
+			}
+			sf := c.P.SSAFunc(fd.Obj)
+			if sf == nil {
+				continue
+			}
+			if _, inExec := exec[sf]; !inExec {
+				continue // cache builders and helpers outside execution
+			}
+			f := c.P.NewFuncCFG(fd)
+			writesKey := false
+			ast.Inspect(fd.Decl.Body, func(n ast.Node) bool {
+				call, ok := n.(*ast.CallExpr)
+				if !ok {
+					return true
+				}
+				ki, ok := daoMutators[f.calleeSym(call)]
+				if ok && ki < len(call.Args) && f.Mentions(call.Args[ki], nil)[p.key] {
+					writesKey = true
+				}
+				return true
+			})
+			writesField := ws.Trans[fd.Obj][p.field] || literalFields(fd, natPkg, p.owner)[shortSym(p.field)]
+			if !writesKey {
+				continue
+			}
+			key := fmt.Sprintf("%s.%s", FuncKey(fd.Obj), shortSym(p.key))
+			if writesField {
+				c.OK(key, c.P.Pos(fd.Decl.Pos()), fmt.Sprintf("stores %s and updates %s.%s", shortSym(p.key), p.owner, shortSym(p.field)))
+			} else {
+				c.Fail(key, c.P.Pos(fd.Decl.Pos()), fmt.Sprintf("%s writes the storage record %s but not the cache field %s.%s that InitializeCache fills from it: a running node keeps answering from the old cached value, a restarted node reads the new one", FuncKey(fd.Obj), shortSym(p.key), p.owner, shortSym(p.field)))
+			}
+		}
+	}
 }
